@@ -5,8 +5,9 @@ CONSTANTS
   ReadRule = "written"
   UnsetSpace <- NoUnset
   ScalarRule = "fill_is_unset"
-  DfltSpace <- SomeDflt
-  LayoutSpace <- OneLayout
+  ListRule = "own_file"
+  DfltSpace <- PlainDflt
+  LayoutSpace <- TwoLayouts
 INVARIANT NoWriteError
 INVARIANT RoundTrip
 INVARIANT ScalarRoundTrip
